@@ -5,27 +5,31 @@ import json
 import random
 
 SDL = """
-type Query { a: Int  b(x: Int, l: [Int]): String  o: Obj  i: I  u: U  os: [Obj]  r(req: Int!): Int  d(nd: Int! = 1, nl: [Int!]): Int  is: [I]  f(in: In, ins: [In!]): Int }
+type Query { a: Int  b(x: Int, l: [Int]): String  o: Obj  i: I  u: U  os: [Obj]  r(req: Int!): Int  d(nd: Int! = 1, nl: [Int!]): Int  is: [I]  f(in: In, ins: [In!]): Int  j: J  u2: U2 }
 type Mutation { m(x: Int): Int  o: Obj }
 type Subscription { s1: Int  s2(x: Int): Int  o: Obj }
 input In { x: Int = 3  y: Int!  n: In  l: [Int!] }
-type Obj implements I { a: Int  o: Obj  s: String  b(x: Int): String  c(p: Int = 1, q: Int = 5): Int }
+type Obj implements I & J { a: Int  o: Obj  s: String  b(x: Int): String  c(p: Int = 1, q: Int = 5): Int }
 type Obj2 implements I { a: Int  s: Int!  n: String  c(p: Int = 2): Int }
 interface I { a: Int  c(p: Int = 1): Int }
 union U = Obj | Obj2
+union U2 = Obj2
+interface J { s: String }
 enum E { A B }
 """
 FIELDS = {
-    "Query": {"a": ("Int", {}), "b": ("String", {"x": "Int", "l": "[Int]"}), "o": ("Obj", {}), "i": ("I", {}), "u": ("U", {}), "os": ("Obj", {}), "r": ("Int", {"req": "Int!"}), "d": ("Int", {"nd": "Int! = 1", "nl": "[Int!]"}), "is": ("I", {}), "f": ("Int", {"in": "In", "ins": "[In!]"})},
+    "Query": {"a": ("Int", {}), "b": ("String", {"x": "Int", "l": "[Int]"}), "o": ("Obj", {}), "i": ("I", {}), "u": ("U", {}), "os": ("Obj", {}), "r": ("Int", {"req": "Int!"}), "d": ("Int", {"nd": "Int! = 1", "nl": "[Int!]"}), "is": ("I", {}), "f": ("Int", {"in": "In", "ins": "[In!]"}), "j": ("J", {}), "u2": ("U2", {})},
     "Mutation": {"m": ("Int", {"x": "Int"}), "o": ("Obj", {})},
     "Subscription": {"s1": ("Int", {}), "s2": ("Int", {"x": "Int"}), "o": ("Obj", {})},
     "Obj": {"a": ("Int", {}), "o": ("Obj", {}), "s": ("String", {}), "b": ("String", {"x": "Int"}), "c": ("Int", {"p": "Int = 1", "q": "Int = 5"})},
     "Obj2": {"a": ("Int", {}), "s": ("Int", {}), "n": ("String", {}), "c": ("Int", {"p": "Int = 2"})},
     "I": {"a": ("Int", {}), "c": ("Int", {"p": "Int = 1"})},
     "U": {},
+    "J": {"s": ("String", {})},
+    "U2": {},
 }
-COMPOSITE = {"Query", "Mutation", "Subscription", "Obj", "Obj2", "I", "U"}
-POSSIBLE = {"I": {"Obj", "Obj2"}, "U": {"Obj", "Obj2"}, "Query": {"Query"}, "Mutation": {"Mutation"}, "Subscription": {"Subscription"}, "Obj": {"Obj"}, "Obj2": {"Obj2"}}
+COMPOSITE = {"Query", "Mutation", "Subscription", "Obj", "Obj2", "I", "U", "J", "U2"}
+POSSIBLE = {"J": {"Obj"}, "U2": {"Obj2"}, "I": {"Obj", "Obj2"}, "U": {"Obj", "Obj2"}, "Query": {"Query"}, "Mutation": {"Mutation"}, "Subscription": {"Subscription"}, "Obj": {"Obj"}, "Obj2": {"Obj2"}}
 
 
 def named(n):
@@ -129,7 +133,7 @@ def gen_sel(rng, pt, depth, frags, vars_, budget, bvars=()):
             if rng.random() < 0.15:  # the same fragment spread twice in one selection list
                 out.append(spread(out[-1]["name"], gen_dirs(rng, bvars)))
         elif r < 0.27 and depth > 0:
-            cond = rng.choice(["", "Obj", "Obj2", "I", "U", pt])
+            cond = rng.choice(["", "Obj", "Obj2", "I", "U", "J", "U2", pt])
             out.append(inline(cond, gen_sel(rng, cond or pt, depth - 1, frags, vars_, budget, bvars), gen_dirs(rng, bvars)))
         elif r < 0.33:
             out.append(field("__typename", alias=rng.choice(["", "t"])))
@@ -212,7 +216,7 @@ def gen_doc(rng):
             strip_root_dirs(sel)
         defs.append({"k": "op", "name": name, "op": kind, "vars": [gen_vardef(rng, v) for v in vars_] + [gen_bvardef(rng, v) for v in bvars], "on": "", "sel": sel})
     for fn in fnames:
-        on = rng.choice(["Obj", "Obj2", "I", "U", "Query", "Query", "Subscription"])
+        on = rng.choice(["Obj", "Obj2", "I", "U", "J", "U2", "Query", "Query", "Subscription"])
         defs.append({"k": "frag", "name": fn, "op": "", "vars": [], "on": on, "sel": gen_sel(rng, on, 1, [x for x in fnames if x != fn] if rng.random() < 0.8 else fnames, vars_, budget, bvars)})
     if any(d["k"] == "op" and d["op"] == "subscription" for d in defs):
         for d in defs:
@@ -256,7 +260,8 @@ INJECTIONS = ["unknown-field", "leaf-with-selection", "composite-without-selecti
               "nullable-var-required-input-field", "nullable-var-defaulted-input-field", "nested-duplicate-input-key", "input-var-default-object",
               "subscription-two-fields", "subscription-fragment-two-fields", "subscription-same-key-twice", "subscription-inline-one-field", "mutation-valid", "cycle-behind-shared-fragment", "shared-fragment-no-cycle",
               "cross-fragment-conflict-11", "cross-fragment-conflict-12", "cross-fragment-conflict-21", "cross-fragment-conflict-22", "cross-fragment-compatible",
-              "two-operations-shared-fragment-variable-types"]
+              "two-operations-shared-fragment-variable-types",
+              "abstract-no-overlap", "abstract-partial-overlap", "abstract-in-abstract-no-overlap"]
 
 
 def normalise(doc):
@@ -485,6 +490,14 @@ def _inject(doc, label, rng):
         op["vars"].append(vardef("tv"))
         op["sel"].append(spread("Tsv"))
         doc["defs"].append({"k": "op", "name": "Second", "op": "query", "vars": [vardef("tv", {"k": "list", "of": named("Int")})], "on": "", "sel": [spread("Tsv")]})
+    elif label == "abstract-no-overlap":
+        op["sel"].append(field("j", "ano", [], [inline("U2", [field("__typename")])]))          # J ~ {Obj}, U2 ~ {Obj2}: never
+    elif label == "abstract-partial-overlap":
+        op["sel"] += [field("j", "apo", [], [inline("I", [field("a")]), inline("U", [field("__typename")])]),
+                      field("u2", "apu", [], [inline("I", [field("a")]), inline("Obj2", [field("n")])])]
+    elif label == "abstract-in-abstract-no-overlap":
+        doc["defs"].append({"k": "frag", "name": "OnJ", "op": "", "vars": [], "on": "J", "sel": [field("s")]})
+        op["sel"].append(field("u2", "aia", [], [spread("OnJ")]))
     elif label == "repeated-inline-unknown-field":
         op["sel"].append(field("o", "riu", [], [inline("Obj", [field("a")]), inline("Obj", [field("nope")])]))
     elif label == "bad-variable-default":
